@@ -854,14 +854,16 @@ EMPTIED = ['props', 'detail_props', 'overlays', 'cubemaps']
 
 
 def from_empty(base: str, workdir: str, cfg: str, hdr: int, seed: int, feats: set[str], size: int,
-               read_first: bool = True) -> tuple[dict[str, str], Gen | None, str]:
+               read_first: bool = True, named: str | None = None) -> tuple[dict[str, str], Gen | None, str]:
     """History: a file whose static-prop / detail-prop / overlay / cubemap tables are EMPTY (static-prop header number `hdr`) is read -
     every view, so that whatever a reader records about the file is recorded -, then a generated world is assigned to the SAME BSP
     object, saved and re-read by a fresh object. Nobody names the static-prop format: the object that read the empty table chooses
     it (public attribute `static_prop_version`), the world is generated for that choice, and the fresh reader has to arrive at the
     same format from the file alone.  Returns (view -> difference, the generated world's Gen, name of the chosen format).
     With read_first=False the object that opens the file reads NOTHING before the world is assigned: no format is recorded, the
-    writer falls back to its default (the world is generated for it; what was used is read off the object after the save)."""
+    writer falls back to its default (the world is generated for it; what was used is read off the object after the save).
+    With `named` the caller names the format (`bsp.static_prop_version = ...`) BEFORE the empty lump is read: reading must not
+    change it."""
     import srctools.bsp as B
     path = os.path.join(workdir, 'hist.bsp')
     shutil.copy(base, path)
@@ -887,6 +889,8 @@ def from_empty(base: str, workdir: str, cfg: str, hdr: int, seed: int, feats: se
             b0.game_lumps[b'sprp'].version = hdr
             b0.save(path)
             b1 = B.BSP(path, exp_ver)
+            if named is not None:
+                b1.static_prop_version = B.StaticPropVersion[named]
             for v in VIEWS if read_first else []:
                 val = getattr(b1, v)
                 if v in EMPTIED and len(val):
@@ -896,6 +900,9 @@ def from_empty(base: str, workdir: str, cfg: str, hdr: int, seed: int, feats: se
     except (Exception, ImplTimeout) as e:      # noqa: BLE001
         res['!save'] = f'file with empty tables: {type(e).__name__}: {e}'[:300]
         return res, None, '?'
+    if named is not None and chosen.name != named:
+        res['props'] = f'the format named by the caller ({named}) is {chosen.name} after the empty static-prop lump (header number {hdr}) was read'
+        return res, None, chosen.name
     if chosen.name not in PROP_VERSIONS:
         res['props'] = f'after reading an empty static-prop lump with header number {hdr} the format is {chosen.name}'
         return res, None, chosen.name
@@ -919,6 +926,8 @@ def from_empty(base: str, workdir: str, cfg: str, hdr: int, seed: int, feats: se
     try:
         with time_limit(IMPL_TIME_LIMIT):
             b2 = B.BSP(path, exp_ver)
+            if named is not None and ambiguous_prop_version(cfg, named):
+                b2.static_prop_version = chosen
             got = canon_views(b2, lambda n: getattr(b2, n), g.vit, chosen)
             if b2.static_prop_version is not chosen:
                 res['props'] = (f'props written in the format chosen when the empty lump was read ({chosen.name}; header number {hdr}, BSP version '
